@@ -10,11 +10,11 @@ MANIFEST = dict(
          "FromChannel delivers every received value in order then Complete, nothing after unsubscription, close(done) once, never stuck in a receive once done is closed; Collect = (values, error); "
          "ToSlice/ToMap/Materialize;Dematerialize by the operator machines. Tie: kind=chan (every script and ending x capacities 0-3 x unsubscription at every point, equality with the model under a "
          "canonical schedule) + kind=chanv oracles on slow/stalled/stopping consumers, racing and early unsubscription, abandoned channels."
-         ' FromChannel and the hand-off bridges also under an already cancelled subscription context (cc=1): a done context does not end a stream.',
+         ' FromChannel and the hand-off bridges also under an already cancelled subscription context (cc=1): a done context does not end a stream; FromChannel over a buffered channel holding a 512-value backlog whose consumer leaves after k values (Take(k) / Unsubscribe): the rest stays in the channel.',
     technique="Lean 4 proof (invariants of a producer/consumer/unsubscriber transition system over a bounded FIFO, induction over arbitrary schedules) + differential correspondence + schedule-dependent oracles",
     ref='5/C17')
 
-OPS = ('ToChannel', 'FromChannel', 'Collect', 'ObserveOn', 'SubscribeOn')
+OPS = ('ToChannel', 'FromChannel', 'FromChannelBacklog', 'Collect', 'ObserveOn', 'SubscribeOn')
 
 
 def check(ctx):
